@@ -22,17 +22,31 @@ class B:
     pass
 
 
+class EmptyBag(list):
+    """A container subclass that is falsy while empty: `self` of its methods is falsy."""
+
+
+class Falsy:
+    def __bool__(self):
+        return False
+
+
+class BoolRaises:
+    def __bool__(self):
+        raise RuntimeError("truth value is ambiguous")
+
+
 FILES = ["/app/m.py", "/app/vendor/v.py", "/lib/inc/i.py", "/usr/x.py"]
 # expected (app_frame, short_path) with APP_ROOT=/app, include=/lib/inc, exclude=/app/vendor (exclusion wins)
 EXPECT = {"/app/m.py": (True, "/m.py"), "/app/vendor/v.py": (False, "/v.py"), "/lib/inc/i.py": (True, "/i.py"),
           "/usr/x.py": (False, "/usr/x.py")}
-TOPS = [(0, 0), (0, 1), (0, 2), (1, 0), (2, 3), (3, 0)]      # (file index, self kind) of the top frame
-LOWERS = [(0, 0), (1, 1), (2, 2), (3, 3)]                    # (file index, self kind) of the lower frames
+TOPS = [(0, 0), (0, 1), (0, 2), (1, 0), (2, 3), (3, 0), (0, 4), (0, 5), (0, 6)]      # (file index, self kind) of the top frame
+LOWERS = [(0, 0), (1, 1), (2, 2), (3, 3), (0, 4), (1, 5)]      # (file index, self kind) of the lower frames
 FRAME_TYPES = ["single_frame", "all_frame", "no_frame", "bogus_type", None]
 
 
 def _self_obj(kind):
-    return [None, A(), B(), "NONE"][kind]
+    return [None, A(), B(), "NONE", EmptyBag(), Falsy(), BoolRaises()][kind]
 
 
 def _with_self(loc, kind):
@@ -46,10 +60,10 @@ def _with_self(loc, kind):
 
 def fidelity(depth: int, ft: int, kind: int, t: int, top: int, lower: int, nw: int, line0: int, line1: int, ts: int) -> str:
     """
-    A stack of 1-3 frames (files in/outside the app root / include / exclude prefixes, self absent / instance / None),
+    A stack of 1-3 frames (files in/outside the app root / include / exclude prefixes, self absent / instance / None / falsy instance (empty container subclass, __bool__ False or raising)),
     top-frame locals from a graph template, frame_type single/all/none/unknown/absent, 0-2 watches, line or method
     tracepoint, the snapshot equals an independent reading.
-    PRE: 1 <= depth <= 3 and 0 <= ft <= 4 and 0 <= kind <= 1 and 0 <= t <= 8 and 0 <= top <= 5 and 0 <= lower <= 3 and 0 <= nw <= 2
+    PRE: 1 <= depth <= 3 and 0 <= ft <= 4 and 0 <= kind <= 1 and 0 <= t <= 8 and 0 <= top <= 8 and 0 <= lower <= 5 and 0 <= nw <= 2
     PRE: ts > 0 and line0 >= 1 and line1 >= 1
     PRE: kind == 0 or ft == 0
     PRE: depth > 1 or lower == 0
@@ -65,7 +79,7 @@ def fidelity(depth: int, ft: int, kind: int, t: int, top: int, lower: int, nw: i
     frames, locs = [], []
     prev = None
     for i in range(depth - 1, 0, -1):
-        fi, sk = LOWERS[(lower + i) % 4]
+        fi, sk = LOWERS[(lower + i) % 6]
         loc = _with_self({"p%d" % i: i, "q": [i, "s"]}, sk)
         fr = FakeFrame(FILES[fi], "caller%d" % i, line1 + i, loc, {}, prev)
         frames.insert(0, fr)
@@ -197,15 +211,17 @@ MUTANTS = {"swap_file_short": _mut_swap_file_short, "all_means_single": _mut_all
 
 CONDITIONS = [
     dict(fn="fidelity",
-         cubes={"quick": ["depth == %d and ft == %d and kind == %d and top == %d and t in (0, 4, 8) and nw != 1" % (d, f, k, tp)
-                          for d in (1, 2, 3) for (f, k) in ((0, 0), (1, 0), (2, 0), (3, 0), (4, 0), (0, 1)) for tp in range(6)],
+         cubes={"quick": ["depth == %d and ft == %d and kind == %d and top == %d and lower <= 3 and t in (0, 4, 8) and nw != 1" % (d, f, k, tp)
+                          for d in (1, 2, 3) for (f, k) in ((0, 0), (1, 0), (2, 0), (3, 0), (4, 0), (0, 1)) for tp in range(6)] +
+                         ["depth == %d and ft == %d and kind == 0 and top == %d and lower %s and t in (0, 4, 8) and nw != 1" % (d, f, tp, lo)
+                          for (d, f, lo) in ((1, 0, "== 0"), (2, 1, ">= 4")) for tp in (6, 7, 8)],
                 "thorough": ["depth == %d and ft == %d and kind == %d and t == %d and top == %d" % (d, f, k, t, tp) for d in (1, 2, 3)
-                             for (f, k) in ((0, 0), (1, 0), (2, 0), (3, 0), (4, 0), (0, 1)) for t in range(9) for tp in range(6)]},
+                             for (f, k) in ((0, 0), (1, 0), (2, 0), (3, 0), (4, 0), (0, 1)) for t in range(9) for tp in range(9)]},
          twins=["reach", "mutant:swap_file_short@depth == 1 and ft == 0 and kind == 0 and top == 1 and t in (0, 4, 8) and nw != 1",
                 "mutant:all_means_single@depth == 2 and ft == 1 and kind == 0 and top == 1 and t in (0, 4, 8) and nw != 1",
                 "mutant:class_of_type@depth == 1 and ft == 0 and kind == 0 and top == 1 and t in (0, 4, 8) and nw != 1",
                 "mutant:size_as_str@depth == 1 and ft == 0 and kind == 0 and top == 1 and t in (0, 4, 8) and nw != 1"],
          timeout={"quick": 240, "thorough": 900},
-         bounds="stack depth 1-3; 6 top-frame (file, self) variants and 4 lower-frame variants over 4 files (app root / excluded / included / outside); 9 graph "
+         bounds="stack depth 1-3; 9 top-frame (file, self) variants and 6 lower-frame variants over 4 files (app root / excluded / included / outside); 9 graph "
                 "templates for the top frame's locals (quick 3); 5 frame_type settings; 0-2 watches; line and method tracepoints"),
 ]
